@@ -1,5 +1,6 @@
 """C13 — Merkle, row and share proofs are position-binding and sound."""
-from engine.rules import Cmp, Has, per_iteration, require_guard
+from engine.rules import Cmp, Direct, Has, per_iteration, require_guard
+from engine.mir import has_all, has_leaf
 
 T = "celestia_types::"
 CLAUSE = (
@@ -23,6 +24,27 @@ def run(ctx):
             "C13.merkle.root",
         )
         require_guard(ctx, f, Cmp(["a1.index"], ["a1.total"], pass_op="Lt", name="index < total"), "C13.merkle.index-bound")
+        # the recursive helper that recomputes the root: the walk's depth is decided by `total`
+        # and the aunts must be consumed exactly (extra or missing aunts are rejected)
+        from engine.rules import exit_sites, switches_on, call_expr
+        from engine.mir import walk
+        helper = None
+        for x in exit_sites(f):
+            pass
+        for b in sorted(f.reachable_from([0])):
+            t = f.blocks[b]["t"]
+            if t["k"] == "call" and (t.get("rf") or "").startswith(T + "merkle_proof::") and ctx.fn(t["rf"]) is not None and t["rf"] != f.path:
+                e = call_expr(f, b)
+                if has_all(ctx.leaves(e), ["a1.index", "a1.total", "a1.aunts"]):
+                    helper = ctx.fn(t["rf"])
+        ctx.check(helper is not None, "C13.merkle.helper", f.path, "root recomputation helper taking index, total and aunts", key="C13.merkle.helper")
+        if helper is not None:
+            ctx.functions.add(helper.path)
+            require_guard(ctx, helper, Direct(["*::is_empty", "*::len", "*::split_last", "*::split_first", "*::first", "*::last"], ["a4"], name="aunts consumed exactly: extra aunts at a leaf / missing aunts at an inner node are rejected"), "C13.merkle.aunts-exact")
+            acc = [x["block"] for x in exit_sites(helper) if x["kind"] in ("accept", "may")]
+            sw = [b for b in switches_on(ctx, helper, ["a2"]) if not has_leaf(ctx.leaves(helper.switch_discr_expr(b)), "a4")]
+            bypass = helper.path_to([0], set(acc), removed_blocks=set(sw)) if sw else [0]
+            ctx.check(bool(sw) and bypass is None, "C13.merkle.depth-by-total", helper.path, "every accepting path branches on `total` (leaf vs inner node), so the depth of the walk is bound to the claimed leaf count", key="C13.merkle.depth-by-total")
     f = ctx.anchor(T + "data_availability_header::RowProof::verify")
     if f:
         require_guard(ctx, f, Cmp(["len:a1.row_roots"], ["len:a1.proofs"], pass_op="Eq", name="row_roots.len() == proofs.len()"), "C13.row.len")
